@@ -109,7 +109,8 @@ Print Assumptions C18_position_oracle.
 (* ---- the same statement over the REAL dump model (coq/io/CodecDump.get_state, all value kinds), not over the abstract
    container walk above.  x "cannot be persisted" = get_state raises on it from every dump state (an unsupported type, an
    object whose __getstate__/__reduce__ raises, a property object).  `inside x v`: x sits in v at a position the dumper
-   serialises -- an item of a list/tuple/set, a dict or defaultdict value, a default factory, masked-array data/mask, an
+   serialises -- an item of a list/tuple/set, a dict or defaultdict value, a default factory, a cell of an object array of
+   any rank (every cell is serialised, below the nested lists of tolist()), masked-array data/mask, an
    RNG state, a slot of functools.partial, the attrs of an operator helper, the owner of a bound method, the state or
    reduce arguments of an object -- at ANY depth (the relation is closed under nesting). *)
 Theorem C18_codec_inside_raises :
